@@ -26,6 +26,7 @@ pub fn requirements(tier: Tier) -> Vec<(&'static str, u64)> {
         ("runs:parser", if q { 50_000 } else { 1_000_000 }),
         ("runs:builder", if q { 20_000 } else { 300_000 }),
         ("runs:new", if q { 20_000 } else { 300_000 }),
+        ("inputs-with-an-injected-fault", 5_000),
         ("trace:conversion-failed", 1_000),
         ("trace:hook-failed", 1_000),
         ("trace:conversion-not-reached", 1_000),
@@ -131,6 +132,20 @@ pub fn judge_entry(cfg: &Cfg, input: &str, entry: Entry) -> (Option<Judged>, Opt
         }
         if fins.len() != 1 {
             return fail("protocol", "hook-not-exactly-once", format!("build() invoked the hook {} times", fins.len()));
+        }
+    }
+    // a malformed checksum in the input is not the parser's to refuse: the generic checksum
+    // check runs after the hook, which may repair or remove it. If that is the input's only
+    // defect, the conversion (and, if it succeeds, the hook) must have been reached.
+    if via_parser {
+        let an = crate::model::analyse(input);
+        if !an.unspec && an.rejects == vec!["checksum"] {
+            if convs.is_empty() {
+                return fail("protocol", "checksum-refused-before-conversion", "the input's only defect is its checksum, yet the conversion was never invoked".into());
+            }
+            if convs[0].1 && fins.is_empty() {
+                return fail("protocol", "checksum-refused-before-hook", "the input's only defect is its checksum and the conversion succeeded, yet the hook was never invoked".into());
+            }
         }
     }
     // --- results
@@ -287,7 +302,8 @@ pub fn run(ctx: &mut Ctx) {
                     // the same spelling with one fault of the C05 kinds (bad qualifier, malformed
                     // checksum, bad escape, ...): where in the protocol the refusal happens
                     if round % 8 == 0 {
-                        let kind = *r.pick(spell::FAULT_KINDS);
+                        // (half of them checksum faults: the one defect the hook may still repair)
+                        let kind = if r.coin() { *r.pick(&["checksum-no-colon", "checksum-odd", "checksum-nonhex", "checksum-dup-alg", "checksum-stray-comma"]) } else { *r.pick(spell::FAULT_KINDS) };
                         if let Some(bad) = spell::inject(&mut r, &t, &sp, kind) {
                             ctx.st.count("inputs-with-an-injected-fault");
                             one(ctx, &cfg, &bad, true);
